@@ -208,6 +208,10 @@ def _parse_raw_data(region_str):
                           AstropyUserWarning)
             if frame_or_shape in unsupported_frames:
                 frame = None
+            elif '||' not in line:
+                # an unsupported shape that is the last member of a
+                # composite ends the composite
+                composite_meta = {}
             continue
 
         if frame_or_shape in supported_frames:
